@@ -121,6 +121,20 @@ func (w *World) range64(r *Rng) (uint64, uint64) {
 }
 
 func vals64(h uint32, key uint16, shape, n int, seed uint64) []uint64 {
+	if shape == 8 {
+		// exactly n buckets of one value each (n up to 13000): bucket counts that equal the
+		// format's own magic numbers
+		if n > 13000 {
+			n = 13000
+		}
+		out := make([]uint64, 0, n)
+		lo := uint64(key)<<16 | (seed & 0xFFFF)
+		for i := 0; i < n; i++ {
+			hh := (uint64(h) + uint64(i)) & 0xFFFFFFFF
+			out = append(out, hh<<32|lo)
+		}
+		return out
+	}
 	if shape == 7 {
 		// one value in each of n consecutive buckets: long bucket tables
 		if n > 400 {
@@ -191,6 +205,7 @@ func eq64(bm *roaring64.Bitmap, m *model.Set64) (ok bool, detail string) {
 		if len(bs) != len(keys) {
 			return false, fmt.Sprintf("%d buckets, model has %d", len(bs), len(keys))
 		}
+		var before uint64
 		for i, h := range keys {
 			if bs[i].Key != h || bs[i].Inner == nil {
 				return false, fmt.Sprintf("bucket %d has key %#x, model %#x", i, bs[i].Key, h)
@@ -201,6 +216,37 @@ func eq64(bm *roaring64.Bitmap, m *model.Set64) (ok bool, detail string) {
 			probe := uint64(h)<<32 | 0x12345
 			if bm.Contains(probe) != m.Contains(probe) {
 				return false, fmt.Sprintf("Contains(%#x) wrong", probe)
+			}
+			// positional queries at the edges of every bucket: the indices of a set this large
+			// do not fit in 32 bits
+			b := m.Bucket(h)
+			c := b.Card()
+			lo, _ := b.Min()
+			hi, _ := b.Max()
+			vlo, vhi := uint64(h)<<32|uint64(lo), uint64(h)<<32|uint64(hi)
+			if g := bm.Rank(vlo); g != before+1 {
+				return false, fmt.Sprintf("Rank(%#x)=%d want %d", vlo, g, before+1)
+			}
+			if g := bm.Rank(vhi); g != before+c {
+				return false, fmt.Sprintf("Rank(%#x)=%d want %d", vhi, g, before+c)
+			}
+			if g, err := bm.Select(before); err != nil || g != vlo {
+				return false, fmt.Sprintf("Select(%d)=%#x,%v want %#x", before, g, err, vlo)
+			}
+			if g, err := bm.Select(before + c - 1); err != nil || g != vhi {
+				return false, fmt.Sprintf("Select(%d)=%#x,%v want %#x", before+c-1, g, err, vhi)
+			}
+			before += c
+		}
+		if g, err := bm.Select(want); err == nil {
+			return false, fmt.Sprintf("Select(%d) on %d elements returned %#x instead of an error", want, want, g)
+		}
+		if g, lim := bm.Minimum(), bm.Maximum(); len(keys) > 0 {
+			b0, b1 := m.Bucket(keys[0]), m.Bucket(keys[len(keys)-1])
+			mn, _ := b0.Min()
+			mx, _ := b1.Max()
+			if g != uint64(keys[0])<<32|uint64(mn) || lim != uint64(keys[len(keys)-1])<<32|uint64(mx) {
+				return false, fmt.Sprintf("Minimum/Maximum = %#x/%#x wrong", g, lim)
 			}
 		}
 		return true, ""
